@@ -79,7 +79,8 @@ _DECIDING = ["grid2d.array.container", "grid2d.array.pairing", "grid2d.grid.pair
              "radial.inside_ray", "radial.result_pairing", "transform.received", "transform.pairing",
              "transform.not_twice"]
 MIN_MONITORS = {"*": dict({k: 20 for k in _DECIDING}, **{"radial.plain_array_sequence": 20, "radial.callers_coordinates_untouched": 20,
-                                                                      "grid1d.after_in_place_edit": 20, "kwargs.forwarded": 20, "transform.nested_once": 20})}
+                                                                      "grid1d.after_in_place_edit": 20, "kwargs.forwarded": 20, "transform.nested_once": 20,
+                                                                      "composite.container_mirrors_input": 20})}
 
 RADIAL_MIN = {"VerifC17Small": 1e-8, "VerifC17Mid": 0.3, "VerifC17Big": 2.5}
 
@@ -210,6 +211,16 @@ def make_profiles(aa):
             @dec.transform
             def f_nested(self, grid, *args, **kwargs):
                 return self.inner(grid, **kwargs)
+
+            # -- decorated functions whose body combines the results of other decorated functions (a galaxy summing its profiles):
+            #    what they return already is an autoarray structure, built for the grid the BODY received
+            @dec.to_array
+            def f_sum_of_parts(self, grid, *args, **kwargs):
+                return self.f_array(grid) + 2.0 * self.f_array(grid)
+
+            @dec.to_array
+            def f_parts_list(self, grid, *args, **kwargs):
+                return [self.f_array(grid), 3.0 * self.f_array(grid)]
 
             @dec.relocate_to_radial_minimum
             def f_moved_only(self, grid, *args, **kwargs):
@@ -395,6 +406,25 @@ def check_radial_and_transform(ctx, prof_name, p, grid, gin, W, out_cls, wrap_ok
                   "transform.not_twice", transforms=len(p.frame_log), expected=exp, got=sl, **W)
 
 
+def check_composite(ctx, p, grid, W, is_container):
+    """A decorated function that returns the (already wrapped) results of other decorated functions: the container of the
+    outer result still mirrors the grid the CALLER passed (its type and mask), element by element for lists."""
+    ok, res, log = call_logged(ctx, p, "composite.exception", p.f_sum_of_parts, grid)
+    if ok and len(log) == 2:
+        exp = p.tags.t(log[0][1]) + 2.0 * p.tags.t(log[1][1])
+        good = is_container(res) and _np(res.slim if hasattr(res, "slim") else res).shape == exp.shape \
+            and np.array_equal(_np(res.slim if hasattr(res, "slim") else res), exp)
+        ctx.check(good, "composite.container_mirrors_input", method="f_sum_of_parts", grid_type=type(grid).__name__,
+                  result_type=type(res).__name__, expected=exp, got=lambda: _np(res), **W)
+    ok, res, log = call_logged(ctx, p, "composite.exception", p.f_parts_list, grid)
+    if ok and len(log) == 2:
+        exp = [p.tags.t(log[0][1]), 3.0 * p.tags.t(log[1][1])]
+        good = isinstance(res, list) and len(res) == 2 and all(
+            is_container(q) and np.array_equal(_np(q.slim if hasattr(q, "slim") else q), e) for q, e in zip(res, exp))
+        ctx.check(good, "composite.container_mirrors_input", method="f_parts_list", grid_type=type(grid).__name__,
+                  result_type=[type(q).__name__ for q in res] if isinstance(res, list) else type(res).__name__, expected=exp, **W)
+
+
 def check_kwargs_and_nesting(ctx, p, grid, W, frame=None):
     """Keyword parameters reach the user function for every grid kind; a function that delegates to another transform-decorated
     method (forwarding **kwargs) sees coordinates moved to the profile frame exactly once, whether the caller omits
@@ -544,6 +574,7 @@ def check_grid2d(ctx, i):
     check_radial_and_transform(ctx, prof_name, p, grid, gin, W, aa.Grid2D,
                                lambda q: same_mask2d(q, m, scales, origin))
     check_kwargs_and_nesting(ctx, p, grid, W, frame=gin - np.asarray(p.centre))
+    check_composite(ctx, p, grid, W, lambda q: isinstance(q, aa.Array2D) and same_mask2d(q, m, scales, origin))
     cls = ["grid2d", "mask:" + fam, "profile:" + prof_name, "coords:" + ("arbitrary" if arbitrary else "pixel_centres"),
            "centre_mode:%d" % mode, "angle:" + ("none" if angle is None else "set")]
     if not m.any():
@@ -628,6 +659,7 @@ def check_irregular(ctx, i):
                       expected=exp, got=lambda: _np(res), **W)
     check_radial_and_transform(ctx, prof_name, p, grid, gin, W, aa.Grid2DIrregular, lambda q: True)
     check_kwargs_and_nesting(ctx, p, grid, W, frame=gin - np.asarray(p.centre))
+    check_composite(ctx, p, grid, W, lambda q: isinstance(q, aa.ArrayIrregular))
     ctx.case("irregular", gin, prof_name, centre, angle, repr(tags.c), nontrivial=n >= 2,
              cls=["irregular", "profile:" + prof_name, "points:%s" % ("1" if n == 1 else "2-5" if n <= 5 else "6+"),
                   "centre:" + ("origin" if centre == (0.0, 0.0) else "shifted")],
@@ -744,6 +776,7 @@ def check_grid1d(ctx, i):
             ctx.check(isinstance(res, aa.Array1D) and _np(res.slim).shape == exp.shape and np.array_equal(_np(res.slim), exp),
                       "project.grid1d.pairing", result_type=type(res).__name__, expected=exp, got=lambda: _np(res), **W)
     check_kwargs_and_nesting(ctx, p, grid, W, frame=None)
+    check_composite(ctx, p, grid, W, lambda q: isinstance(q, aa.Array1D) and same_mask1d(q))
     # history: the same Grid1D object is edited in place (grid[k] = value, e.g. to move a point off a singular centre) and
     # evaluated again: the functions must now receive the line through the coordinates the grid holds NOW
     if n >= 1:
